@@ -328,7 +328,9 @@ class FakeSnowflakeCursor:
                 elif cmd == "DROP SCHEMA" and ident == self._conn.schema:
                     self._conn.schema = None
 
-        if table_comment := cast(tuple[exp.Table, str], transformed.args.get("table_comment")):
+        if (table_comment := cast(tuple[exp.Table, str], transformed.args.get("table_comment"))) and table_comment[
+            1
+        ] is not None:
             # record table comment
             table, comment = table_comment
             catalog = table.catalog or self._conn.database
